@@ -7,10 +7,12 @@ import gen_api
 
 TRUSTED_BASE = [
     "Coq 8.16.1 kernel incl. vm_compute (no native_compute)",
-    "translators tools/gen_*.py (regenerate coq/gen/*.v from /repo on every run)",
+    "translators tools/gen_tables.py, gen_grammar.py, gen_consts.py, gen_census.py (regenerate coq/gen/*.v from /repo on every run: "
+    "flex tables + rule actions, bison LALR tables + semantic actions (classified by their text), constants, clang-AST censuses)",
+    "hand transcriptions of generated skeleton code: FlexEngine.v (flex matching loop) and LalrEngine.v (bison yyparse control flow)",
     "extraction: ExtrOcamlBasic only (bool/option/unit/list/prod/sumbool/sumor + andb/orb inlined); "
     "no Extract Constant of our own; OCaml 4.13.1; harness/model_driver.ml (bytes<->Z glue)",
-    "correspondence harness harness/drv.c built from /repo/lib (gcc, ASan+UBSan) and pygen/*.py",
+    "correspondence harness harness/drv.c, drvxx.cc, thr.c, memdrv.c built from /repo/lib (gcc/g++, ASan+UBSan / TSan / plain) and pygen/*.py",
     "hand-written Gallina model of libconfig.c/scanctx.c/strbuf.c/strvec.c/util.c, tied to the code by "
     "the correspondence run, not verified against the source text",
 ]
